@@ -424,6 +424,12 @@ def check_evaluate(ctx):
             miss.append('the parameter set handed in is not in the model when the rules are applied [%s]' % paths.describe(p_, 3))
     ctx.ob('R18.3-evaluation-point', '_evaluate_model', not miss and order_ok, ctx.loc('analysis', f),
            'the rules are applied to, and the derivative is taken at, the same state array and time on the interface of this model', str(miss) if miss else '')
+    # the rules _evaluate_model asks for are the interface's repeated rules at that state and time (the wrapper only forwards)
+    ctx.prog.mod('simulator')
+    w = ctx.fn('simulator:CSimInterface.py_apply_repeated_rules')
+    ok_w, det_w = util.delegation(w, 'apply_repeated_rules')
+    ctx.ob('R18.3-evaluation-point', 'py_apply_repeated_rules', ok_w, ctx.loc('simulator', w),
+           'py_apply_repeated_rules forwards (state, time, rule_step) to apply_repeated_rules', det_w)
     m = ctx.prog.mod('analysis')
     init = get_method(ctx, '__init__')
     txt = [util.stmt_key(s).replace(' ', '') for s in init.body]
